@@ -64,9 +64,10 @@ def m_memcmp(it, a):
     for i in range(n):
         x = it.load(Ptr(p.obj, p.off + i), 1); y = it.load(Ptr(q.obj, q.off + i), 1)
         if is_sym(x) or is_sym(y):
-            if it.branch(it.I(x) != it.I(y)): return 1
+            if it.branch(it.I(x) != it.I(y)):
+                return 1 if it.branch(it.I(x) > it.I(y)) else 0xffffffff      # bytes compare as unsigned char; the models keep them in 0..255
             continue
-        if x != y: return (1 if x > y else MASK64 & 0xffffffff)
+        if x != y: return (1 if (x & 0xff) > (y & 0xff) else 0xffffffff)
     return 0
 def m_memcpy(it, a): it.memcpy(a[0], a[1], a[2]); return a[0]
 def m_strlen(it, a): return len(it.cstr(a[0]))
@@ -118,6 +119,11 @@ def m_s_replace(it, a):
     this, pos, l1, s, l2 = a; cur = sget(it, this); sset(it, this, cur[:pos] + rd(it, s, l2) + cur[pos + l1:]); return this
 def m_s_replace_aux(it, a):
     this, pos, l1, n2, c = a; cur = sget(it, this); sset(it, this, cur[:pos] + [c] * n2 + cur[pos + l1:]); return this
+def m_s_construct_nc(it, a):
+    this, n, c = a; it.store(Ptr(this.obj, this.off), Ptr(this.obj, this.off + 16), 8); it.store(Ptr(this.obj, this.off + 8), 0, 8); it.store(Ptr(this.obj, this.off + 16), 0, 1)
+    sset(it, this, [c] * n); return None
+def m_s_resize(it, a):
+    this, n, c = a; cur = sget(it, this); sset(it, this, (cur + [c] * n)[:n]); return None
 def m_s_assign(it, a): this, o = a; sset(it, this, sget(it, o)); return None
 def m_s_reserve(it, a):
     this, n = a
@@ -164,7 +170,7 @@ def strings():
     return {
         're:^@_Z' + B + '9_M_createERmm': m_s_create, 're:^@_Z' + B + '9_M_appendEPKcm': m_s_append,
         're:^@_Z' + B + '10_M_replaceEmmPKcm': m_s_replace, 're:^@_Z' + B + '14_M_replace_auxEmmmc': m_s_replace_aux,
-        're:^@_Z' + B + '9_M_assignERKS4_': m_s_assign, 're:^@_Z' + B + '7reserveEm': m_s_reserve,
+        're:^@_Z' + B + '9_M_assignERKS4_': m_s_assign, 're:^@_Z' + B + '12_M_constructEmc': m_s_construct_nc, 're:^@_Z' + B + '6resizeEmc': m_s_resize, 're:^@_Z' + B + '7reserveEm': m_s_reserve,
         're:^@_Z' + B + '9_M_mutateEmmPKcm': m_s_mutate, 're:^@_Z' + B + '8_M_eraseEmm': m_s_erase,
         're:^@_ZNK' + B[1:] + '4findEcm': m_s_find_c, 're:^@_ZNK' + B[1:] + '4findEPKcmm': m_s_find_s, 're:^@_ZNK' + B[1:] + '5rfindEcm': m_s_rfind_c,
         're:^@_ZNK' + B[1:] + '7compareERKS4_': m_s_compare, 're:^@_ZNK' + B[1:] + '7compareEPKc': m_s_compare_cstr,
